@@ -104,6 +104,10 @@ class C14(Check):
         k = case['k']
         if k == 'fixed':
             p, d = case['p'], case['d']
+            if p:       # printing must not remember an earlier configuration
+                V = arith.init_fixed(p + 1, display=d)
+                for v in self.stored_values(p, False)[:400]:
+                    str(V(v, True))
             V = arith.init_fixed(p, display=d, integer=(p == 0))
             dd = p if d is None or d > p or d < 0 else d
             for v in self.stored_values(p, case['big']):
@@ -121,6 +125,12 @@ class C14(Check):
             acc.sample({'class': 'Fixed', 'p': p, 'display': d, 'example': [str(V(v, True)) for v in (1, 10 ** p // 2 + 1, 15 * 10 ** max(p - 1, 0))]})
         elif k == 'guarded':
             p, g, d = case['p'], case['g'], case['d']
+            # first print the same stored values under another split of the same digits (printing must not remember an earlier configuration)
+            if p + g >= 2:
+                p2 = p - 1 if p > 1 else p + 1
+                V = arith.init_guarded(p2, p + g - p2, display=d)
+                for v in self.stored_values(p + g, False)[:400]:
+                    str(V(v, True))
             V = arith.init_guarded(p, g, display=d)
             dd = p if d is None else min(d, p + g)
             for v in self.stored_values(p + g, case['big']):
